@@ -168,7 +168,7 @@ fn parse_vspec(path: &Path) -> Vec<FileSpec> {
                     "n2-into" => it.n2_into = Some(d.args.join(" ")),
                     "fn" => it.fns.push(FnStanza { name: d.args.get(0).cloned().unwrap_or_default(), line: d.line, ..Default::default() }),
                     "ret" | "spec" | "fnattr" | "body-start" | "body-end" | "before" | "after" | "loop" | "loop-start"
-                    | "loop-end" | "closure" | "closure-start" | "closure-end" | "shape" | "no-n2" => {
+                    | "loop-end" | "after-loop" | "closure" | "closure-start" | "closure-end" | "shape" | "no-n2" => {
                         let fnst = it.fns.last_mut().unwrap_or_else(|| die(&format!("{}: @{} outside @fn", where_, d.kind)));
                         fnst.dirs.push(d.clone());
                     }
@@ -891,10 +891,14 @@ fn pass2(fs_: &FileSpec, text1: &str, is_root: bool, map: &mut Vec<BTreeMap<Stri
                         let s = find_stmt(&src, &shape, d, &cctx);
                         edits.ins(src.end(s), format!("\n{}", d.text), base("ghost", Some(d), &f.name, &ftags));
                     }
-                    "loop" | "loop-start" | "loop-end" => {
+                    "loop" | "loop-start" | "loop-end" | "after-loop" => {
                         let i = idx_arg("loop ordinal");
                         let l = shape.loops.get(i).unwrap_or_else(|| fail(&format!("LOST-ANCHOR {}: loop {} not found", cctx, i)));
                         let b = l.body();
+                        if k == "after-loop" {
+                            edits.ins(src.off(b.brace_token.span.close().end()), format!("\n{}", d.text), base("ghost", Some(d), &f.name, &ftags));
+                            continue;
+                        }
                         match k {
                             "loop" => {
                                 if let (Some(it), LoopRef::For(fl)) = (d.args.get(1), l) {
